@@ -4,6 +4,7 @@ CONSTANTS
   TextSyms = {"a", "b"}
   MaxP = 4
   MaxT = 4
+  MaxL = 2
   Dev = {"NoSavedTextPos"}
 INIT Init
 NEXT Next
